@@ -48,7 +48,7 @@ def cases(tier, seed):
                                 nm.reverse()
                             out.append(dict(kind='grid2', names=nm, aac=list(aac), addrs=addrs, claims=[1.0, 1.0 + off],
                                             delays=[0.1, [0.001, 0.1, 0.5][len(out) % 3]], lat=lat, seed=seed * 31 + len(out)))
-    nrand = 400 if tier == 'quick' else 12000
+    nrand = 1500 if tier == 'quick' else 20000
     for i in range(nrand):
         n = rng.choice([3, 3, 4])
         names = rng.sample(NAMES, n)
